@@ -34,7 +34,7 @@ def make_case(rng, i, tier):
             ev.append((on + ln, 0, ["off", c, p]))
         for _ in range(rng.randint(0, 3)):
             if rng.random() < 0.6:
-                ev.append((rng.randrange(0, 60), 1, ["ts", rng.choice([3, 4]), 4]))
+                ev.append((rng.randrange(0, 60), 1, rng.choice([["ts", 3, 4], ["ts", 4, 4], ["ts", 8, 8]])))
             else:
                 ev.append((rng.randrange(0, 60), 1, ["ks", rng.choice(["C", "G"])]))
         ev.sort(key=lambda e: (e[0], e[1]))
@@ -63,7 +63,7 @@ def make_case(rng, i, tier):
             elif k < 0.86:
                 msgs.append(["off", c, p])
             elif k < 0.93:
-                msgs.append(["ts", rng.choice([3, 4]), 4])
+                msgs.append(rng.choice([["ts", 3, 4], ["ts", 4, 4], ["ts", 8, 8]]))
             elif k < 0.97:
                 msgs.append(["ks", rng.choice(["C", "G", "F#"])])
             else:
